@@ -210,8 +210,8 @@ def gen_b64(ctx):
             add(bytes([a, b, 0x51, 0x51]))
     for _ in range(60000 if T else 6000):
         add(rand_mix(r, r.randint(0, 200), r.choice([0.0, 0.05, 0.2, 0.5, 0.9])))
-    for _ in range(40 if T else 6):
-        add(rand_mix(r, r.randint(1000, 20000 if T else 2500), r.choice([0.0, 0.01, 0.3])))
+    for _ in range(16 if T else 6):
+        add(rand_mix(r, r.randint(1000, 10000 if T else 2500), r.choice([0.0, 0.01, 0.3])))
     # the decoder object used directly: several calls on one decoder, small length_out (the
     # `--length_out == 0` exits), output block of exactly the capacity the accesses need (tight) or length_out + 1
     for _ in range(40000 if T else 6000):
@@ -546,7 +546,7 @@ def check_leaves(ctx):
 LEAVES_RULE = ("S-b64: htp_base64_decode_mem on every single byte, every length 0..70 (thorough 0..140) of alphabet characters with a skipped "
                "character inserted / substituted at every position and '=' runs, the standard encoding of every plain length 0..60 with all "
                "padding states and every cut, boundary characters of the alphabet in pairs, random alphabet / non-alphabet mixes up to 200 "
-               "bytes, inputs of 1k..20k; htp_base64_decode on one decoder over several calls with small length_out and an output block of "
+               "bytes, inputs of 1k..2.5k (thorough 1k..10k); htp_base64_decode on one decoder over several calls with small length_out and an output block of "
                "exactly the capacity the accesses need. S-auth: the three schemes in every letter case and near misses, white space "
                "variants x payloads (valid, no colon, invalid base64, NUL), Digest templates with every prefix and substitutions, everything "
                "after `username=` over {quote, backslash, a, space} up to length 5 (6), the quoted-string extractor over {quote, backslash, a} "
